@@ -46,6 +46,7 @@ class C02(Check):
             ("binders", 5, 6 if Q else 7, P3, ("f",)),
             ("fusion", 5, 8 if Q else 9, PA, ("f",)),
             ("hof", 4, 7 if Q else 8, P2, ("f",)),
+            ("applydef", 4, 7 if Q else 8, P2, ("f",)),
             ("sidx", 4, 7 if Q else 8, P2, ("f",)),
             ("binders", 5, 7 if Q else 8, qspaces.POOL_DS, ("f",)),
             ("apply2", 4, 7 if Q else 8, qspaces.POOL_DS, ("f",)),
